@@ -155,6 +155,12 @@ func bothReportersJob(prop, tier string) *SeqJob {
 						if got[0].Cached {
 							side = 1
 						}
+						// C10's record names "the cached path taking precedence over the plain path" as part of what it
+						// decides: with both reporters configured a timer value goes to the handle the cached reporter
+						// allocated for it (round 12, C10-12a). Judged under C10 only.
+						if prop == "C10" && side != 1 {
+							return "timer-not-delivered-on-the-cached-path", fmt.Sprintf("%s: Record(%d) on %s went to the plain reporter although a cached reporter is configured and allocated a timer for it", where(), int64(d), idOf("t", onSub))
+						}
 						if timerSide >= 0 && side != timerSide {
 							return "timer-deliveries-change-sides", fmt.Sprintf("%s: timer values were delivered to the %s reporter before and now to the %s one", where(), sideName(timerSide), sideName(side))
 						}
